@@ -103,6 +103,19 @@ use scale::Encode;
 #[derive(TypeInfo, Encode)] struct OnlyCompact<B> { #[codec(compact)] amount: B }
 fn main() { assert_type_info::<Transfer<u128>>(); assert_type_info::<Op<u64>>(); assert_type_info::<OnlyCompact<u32>>(); }
 """, about="the same parameter used as a plain and as a compact member (both bounds are needed)")
+case("c13_skip_second_attr", "C13", "R13.5", "pass", """
+#[derive(TypeInfo)] enum E<T> { #[codec(index = 7)] #[codec(skip)] Trace(NoInfoWrap<T>), Shown(T) }
+#[derive(TypeInfo)] struct S<T> { #[doc = "documented"] #[allow(unused)] #[codec(skip)] a: NoInfoWrap<T>, b: T }
+fn main() { assert_type_info::<E<u8>>(); assert_type_info::<S<u8>>(); }
+""", about="#[codec(skip)] is honoured wherever it stands among several attributes of the member")
+case("c13_bounds_with_where", "C13", "R13.5", "pass", """
+trait Config { type Balance; }
+#[derive(TypeInfo)] struct Cfg;
+impl Config for Cfg { type Balance = u64; }
+#[derive(TypeInfo)] #[scale_info(bounds(T: TypeInfo + 'static, T::Balance: TypeInfo + 'static))]
+struct W<T> where T: Config { a: T::Balance, m: PhantomData<T> }
+fn main() { assert_type_info::<W<Cfg>>(); }
+""", about="explicit bounds(..) replaces the generated bounds only: the type's own where clause is kept")
 # ------------------------------------------------------------------------------- C13 negatives
 case("c13_neg_param_no_info", "C13", "R13.5", "fail", """
 #[derive(TypeInfo)] struct A<T> { a: T }
@@ -233,6 +246,22 @@ case("c20_bounds_missing_param", "C20", "R20.4", "fail", """
 #[derive(TypeInfo)] #[scale_info(bounds(T: TypeInfo + 'static))] struct S<T, U> { a: T, b: U }
 fn main() {}
 """, twin="c20_derive_twin", about="bounds() leaving a non-skipped parameter without a bound")
+case("c20_bounds_projection_twin", "C20", "R20.4", "pass", """
+trait Config { type Balance; }
+#[derive(TypeInfo)] struct Cfg;
+impl Config for Cfg { type Balance = u64; }
+#[derive(TypeInfo)] #[scale_info(bounds(T: TypeInfo + 'static, T::Balance: TypeInfo + 'static))]
+struct S<T: Config> { a: T::Balance, m: PhantomData<T> }
+fn main() { assert_type_info::<S<Cfg>>(); }
+""", about="twin: the parameter itself is bounded next to its projection")
+case("c20_bounds_projection_only", "C20", "R20.4", "fail", """
+trait Config { type Balance; }
+#[derive(TypeInfo)] struct Cfg;
+impl Config for Cfg { type Balance = u64; }
+#[derive(TypeInfo)] #[scale_info(bounds(T::Balance: TypeInfo + 'static))]
+struct S<T: Config + TypeInfo + 'static> { a: T::Balance, m: PhantomData<T> }
+fn main() { assert_type_info::<S<Cfg>>(); }
+""", twin="c20_bounds_projection_twin", about="a bound on a projection T::X is not a bound on T: the parameter is left without a bound")
 case("c20_bounds_missing_param_empty", "C20", "R20.4", "fail", """
 #[derive(TypeInfo)] #[scale_info(bounds())] struct S<T> { a: T }
 fn main() {}
